@@ -467,3 +467,6 @@ M("C14", "C14-WRAP", UT, "            finally:\n                os.unlink(f.name
 M("C13", "C13-TMP", UT, "            finally:\n                os.unlink(f.name)\n", "            finally:\n                os.unlink(f.name)\n                return func_return\n", "return inside finally swallows failures (seeded C14-D)")
 T("C14", MP, "        all_idx = rng.choice(n_total_samples, size=max_prior_samples, replace=False)\n", "        all_idx = rng.permutation(n_total_samples)[:max_prior_samples]\n", "prefix of a permutation")
 T("C13", UT, "            f = NamedTemporaryFile(mode=\"r+\", suffix=\".hdf5\", delete=False)\n            f.close()\n", "            f = NamedTemporaryFile(mode=\"r+\", suffix=\".hdf5\", delete=False)\n            f.close()\n            func_return = None\n", "harmless constant binding before the try")
+T("C09", DI, _LOGP_OLD, _LOGP_OLD.replace("            res = pt.switch(\n                (value >= a) & (value <= b),\n                -pt.log(value) - pt.log(_fac),\n                -np.inf,\n            )\n", "            res = pt.switch(\n                (value < a) | (value > b),\n                -np.inf,\n                -pt.log(value) - pt.log(_fac),\n            )\n"), "support switch written with the outside test first")
+M("C09", "C09-SUPP", DI, _LOGP_OLD, _LOGP_OLD.replace("            res = pt.switch(\n                (value >= a) & (value <= b),\n                -pt.log(value) - pt.log(_fac),\n                -np.inf,\n            )\n", "            ln_v = pt.log(value)\n            res = pt.switch(\n                (ln_v < pt.log(a)) | (ln_v > pt.log(b)),\n                -np.inf,\n                -ln_v - pt.log(_fac),\n            )\n"), "outside test on log(value): NaN for negative values selects the density (seeded C09-C)")
+M("C09", "C09-WIRE", PR, "            sigma_K0=sigma_K0,\n            P0=P0,\n            sigma_v=sigma_v,\n", "            sigma_K0=sigma_K0,\n            sigma_v=sigma_v,\n", "JokerPrior.default does not forward P0 (seeded C09-D, first half)")
